@@ -281,6 +281,7 @@ struct Link {
    virtual int TxQueueLen() {return -1;}
    virtual void PumpReverse() {}
    virtual bool CanQueueNow() {return true;}
+   virtual bool Acceptable(const MsgSpec & /*s*/) {return true;}               // false: this Message falls under the predicate of an open known finding on this connection
 };
 typedef Link * (*LinkFactory)(const std::string & cfg);
 
@@ -395,7 +396,7 @@ struct PosMap {
    }
 };
 
-struct Counters {uint64_t replays, followed, drifted, steps, ioCalls, zeroResults, oneByteResults, itemsDelivered, bytesMoved, messages, headerSplits, runs, traceLines, tracedRuns;
+struct Counters {uint64_t replays, followed, drifted, steps, ioCalls, zeroResults, oneByteResults, itemsDelivered, bytesMoved, messages, headerSplits, runs, traceLines, tracedRuns, skippedKnown;
                  Counters() {memset(this, 0, sizeof(*this));}};
 
 // pumps without limits until nothing moves any more; false on a gateway error
@@ -546,6 +547,7 @@ inline void RandomRun(LinkFactory mk, const std::string & cfg, uint32_t seed, ui
       const uint32_t what = r.R(100);
       if ((!allQueued)&&(what < 22)&&(L.CanQueueNow())) {
          MsgSpec s = fixed ? (*fixed)[queued] : RandomMessage(L.fam, r, L.simple, L.big && (style == 0 || style == 3)); Finalize(s);
+         if ((!fixed)&&(!L.Acceptable(s))) {C.skippedKnown++; continue;}
          if (!L.Queue(s)) {o.violations.push_back("AddOutgoingMessage failed"); break;}
          mon.OnSent(s); queued++; C.messages++;
          if (bl) {sendLineIdx.push_back(blines.size()); blines.push_back("");}
@@ -615,7 +617,7 @@ inline mj::Value CountersJson(const Counters & C) {
    v.set("replays", mj::Value::Int(C.replays)).set("followed", mj::Value::Int(C.followed)).set("drifted", mj::Value::Int(C.drifted)).set("steps", mj::Value::Int(C.steps))
     .set("io_calls", mj::Value::Int(C.ioCalls)).set("zero_byte_results", mj::Value::Int(C.zeroResults)).set("one_byte_results", mj::Value::Int(C.oneByteResults))
     .set("items_delivered", mj::Value::Int(C.itemsDelivered)).set("bytes_moved", mj::Value::Int(C.bytesMoved)).set("messages", mj::Value::Int(C.messages))
-    .set("runs", mj::Value::Int(C.runs)).set("trace_lines", mj::Value::Int(C.traceLines)).set("traced_runs", mj::Value::Int(C.tracedRuns));
+    .set("runs", mj::Value::Int(C.runs)).set("trace_lines", mj::Value::Int(C.traceLines)).set("traced_runs", mj::Value::Int(C.tracedRuns)).set("messages_skipped_known_finding", mj::Value::Int(C.skippedKnown));
    return v;
 }
 
@@ -642,7 +644,7 @@ inline int CommonMain(int argc, char ** argv, LinkFactory mk) {
       g_rep.Line(s); fclose(g_rep.f);
       return 0;
    }
-   if ((mode == "explore")&&(argc >= 12)) {
+   if ((mode == "explore")&&(argc >= 11)) {
       InitHarness(argv[2]);
       FILE * absLog = fopen(argv[3], "w"); FILE * binLog = fopen(argv[4], "w");
       const uint32_t seed = (uint32_t) atoll(argv[5]); const uint32_t runs = atoi(argv[6]), nmsgs = atoi(argv[7]), traced = atoi(argv[8]), tmsgs = atoi(argv[9]);
@@ -651,11 +653,12 @@ inline int CommonMain(int argc, char ** argv, LinkFactory mk) {
          Counters C;
          for (uint32_t k=0; (k<runs)&&(!g_rep.Stop()); k++) {
             const int style = (k % 8 == 5) ? 1 : ((k % 8 == 6) ? 2 : ((k % 8 == 7) ? 3 : 0));
-            const uint32_t n = (k < traced) ? tmsgs : ((style == 1 || style == 2) ? (nmsgs / 12 + 2) : ((k % 3 == 0) ? nmsgs : (nmsgs / 4 + 1)));
+            // (runs whose logs go to TLC: byte-at-a-time styles with 2 Messages only, their logs have two lines per byte)
+            const uint32_t n = (k < traced) ? ((style == 1 || style == 2) ? 2 : tmsgs) : ((style == 1 || style == 2) ? (nmsgs / 12 + 2) : ((k % 3 == 0) ? nmsgs : (nmsgs / 4 + 1)));
             RandomRun(mk, argv[i], seed * 1000 + k, n, style, C, (k < traced) ? absLog : NULL, (k < traced) ? binLog : NULL);
          }
          per.set(argv[i], CountersJson(C));
-         T.runs += C.runs; T.messages += C.messages; T.ioCalls += C.ioCalls; T.zeroResults += C.zeroResults; T.oneByteResults += C.oneByteResults; T.itemsDelivered += C.itemsDelivered; T.bytesMoved += C.bytesMoved; T.traceLines += C.traceLines; T.tracedRuns += C.tracedRuns;
+         T.runs += C.runs; T.messages += C.messages; T.ioCalls += C.ioCalls; T.zeroResults += C.zeroResults; T.oneByteResults += C.oneByteResults; T.itemsDelivered += C.itemsDelivered; T.bytesMoved += C.bytesMoved; T.traceLines += C.traceLines; T.tracedRuns += C.tracedRuns; T.skippedKnown += C.skippedKnown;
       }
       ArmTimer(0);
       if (absLog) fclose(absLog);
